@@ -10,6 +10,8 @@ from .framework import VERIF, LEAN_DIR, WORK, DRIVER, ALLOWED_AXIOMS, ensure_rep
 
 FORBIDDEN = re.compile(r'\bsorry\b|\badmit\b|^\s*axiom\s|\bnative_decide\b|\bbv_decide\b|implemented_by|'
                        r'\bunsafe\s|maxHeartbeats\s+0\b', re.M)
+# table groups that are projections of one generated file
+DUMPER_OF = {'ChainPow': 'Chain', 'ChainNet': 'Chain', 'ChainAddr': 'Chain'}
 NATIVE_OK_FILES = {'BtcVerif/Props/C11Native.lean'}
 
 
@@ -47,6 +49,7 @@ def lake(*targets, timeout=3600):
 def regen_table(group):
     """Regenerate lean/BtcVerif/Generated/<group>.lean from the working tree; rewrite only if changed."""
     ensure_repo_on_path()
+    group = DUMPER_OF.get(group, group)
     mod = importlib.import_module('harness.tables.' + group.lower())
     src = mod.dump(REPO)
     path = os.path.join(LEAN_DIR, 'BtcVerif', 'Generated', group + '.lean')
@@ -88,13 +91,27 @@ def audit(prop, modules, theorem_names):
     return p.returncode, out, res
 
 
-def prepare(prop):
+def leanchecker(mods):
+    """Independent re-check of the compiled .olean files (thorough tier)."""
+    p = subprocess.run(['lake', 'env', 'leanchecker', *mods], cwd=LEAN_DIR, stdout=subprocess.PIPE,
+                       stderr=subprocess.STDOUT, timeout=3600)
+    return p.returncode, p.stdout.decode(errors='replace')
+
+
+def prepare(prop, tier='quick'):
     os.makedirs(WORK, exist_ok=True)
     out = dict(infra_error=None, broken_ties=[], audit={})
     lockf = open(os.path.join(WORK, 'lake.lock'), 'w')
     fcntl.flock(lockf, fcntl.LOCK_EX)
     try:
-        return _prepare(prop, out)
+        out = _prepare(prop, out)
+        if tier == 'thorough' and not out['infra_error']:
+            rc, log = leanchecker(prop.lean_targets)
+            if rc != 0:
+                out['infra_error'] = 'leanchecker rejected the compiled theorems:\n' + log[-1500:]
+            else:
+                out['audit']['leanchecker'] = 'ok: ' + ' '.join(prop.lean_targets)
+        return out
     finally:
         fcntl.flock(lockf, fcntl.LOCK_UN)
         lockf.close()
